@@ -247,7 +247,9 @@ def gen_tls(ctx):
             add(Case('tls', cert=cert, port=port, clear=[WT] + lock([EHLO, STLS, EHLO, QUIT]), hs=['o'], tls=lock([EHLO, STLS, QUIT])), 'cert:%s' % cert)
     # the HELO name given before the handshake must not reach the Received: line of a message sent inside TLS
     for g1 in (b'EHLO pre.tls.example\r\n',):
-        for g2 in (b'EHLO in.tls.example\r\n', b'HELO in.tls.example\r\n'):
+        # (client.example is what the reverse lookup of the client address gives: helovalid() then keeps no HELO
+        # name at all - seeded change c17-m10 kept the old one on that path)
+        for g2 in (b'EHLO in.tls.example\r\n', b'HELO in.tls.example\r\n', b'EHLO client.example\r\n', b'HELO client.example\r\n'):
             add(Case('tls', clear=[WT] + lock([g1, STLS]), hs=['o'], tls=lock([g2, MAIL, RALICE, DATA, MSG, QUIT])), 'helo-name')
     # records: several lines in one record, a line across records, pipelining inside TLS
     for tls in ([S(EHLO + MAIL + RALICE), WT, S(QUIT), WT], [S(b'EH'), S(b'LO client.example\r'), S(b'\n'), WT, S(NOOP + QUIT), WT],
@@ -414,7 +416,8 @@ def compare_tls(case, r, evs):
     if mh != ih:
         return 'hand-offs: impl=%s model=%s' % (ih, mh)
     if case.tag == 'helo-name':
-        if len(r['msgs']) != 1 or b'pre.tls.example' in r['msgs'][0] or b'in.tls.example' not in r['msgs'][0]:
+        named = any(it[0] == 'S' and b'in.tls.example' in it[1] for it in case.tls)
+        if len(r['msgs']) != 1 or b'pre.tls.example' in r['msgs'][0] or (named and b'in.tls.example' not in r['msgs'][0]):
             return 'HELO name of the clear-text phase in the message queued inside TLS: %r' % (r['msgs'][:1],)
     # the state when the server last blocked = the model's state before the event that ended the session
     if r['states'] and len(evs) >= 2:
@@ -480,7 +483,10 @@ def job(ctx, name, binary, pki, cases):
     nontrivial = set()
     for c, o, d, p in res:
         cs = c.dumps()
-        if d:
+        if d and d.startswith('HELO name of the clear-text phase'):
+            # an oracle on the implementation alone: what was learned before the handshake is in the queued message
+            fails.append((cs, d[:400], 'fails state_reset: the HELO name given before the handshake reached the message queued inside TLS'))
+        elif d:
             dis.append((cs, o, d))
         if not p.startswith('holds'):
             fails.append((cs, o, p))
